@@ -62,7 +62,35 @@ Inductive case :=
 (* Rectangle.vertices *)
 | CRectVerts (scale : Q) (l w : Q) (ctr : pt) (ori c s : Q) (o : obs)
 (* enclosing rectangle for an uncertain state *)
-| CEnclose (scale : Q) (sm : shape_meas) (pm : pos_meas) (om : ori_meas) (orc : enc_oracle) (o : obs).
+| CEnclose (scale : Q) (sm : shape_meas) (pm : pos_meas) (om : ori_meas) (orc : enc_oracle) (o : obs)
+(* what the enclosure formula reads off a primitive shape (shapely bounds, shape.center) against the model's
+   bbox / centroid; [co] [so] = cos / sin of a rectangle's orientation *)
+| CMeas (scale : Q) (sh : shape) (co so : Q) (sm : shape_meas)
+(* occupancy of a shape at an exact state through TrajectoryPrediction (heading: stored | atan2(velocity_y, velocity));
+   atan2 / (cos, sin) tabulated from libm at the arguments the harness read off the state itself *)
+| CFromState (scale : Q) (sh : shape) (st : state) (atab : list (Q * Q * Q)) (cstab : list (Q * (Q * Q))) (o : obs).
+
+Fixpoint tab2 (l : list (Q * Q * Q)) (y x : Q) : Q :=
+  match l with
+  | [] => 0
+  | (y0, x0, v) :: r => if Qeq_bool y y0 && Qeq_bool x x0 then v else tab2 r y x
+  end.
+Fixpoint tab1 (l : list (Q * (Q * Q))) (a : Q) : Q * Q :=
+  match l with
+  | [] => (2, 2)     (* not a (cos, sin) pair: an argument outside the table shows *)
+  | (a0, v) :: r => if Qeq_bool a a0 then v else tab1 r a
+  end.
+
+Definition close_pt (sc : Q) (p q : pt) : bool := close_s sc (px p) (px q) && close_s sc (py p) (py q).
+Definition close_box (sc : Q) (a b : box) : bool :=
+  close_s sc (b_minx a) (b_minx b) && close_s sc (b_miny a) (b_miny b) &&
+  close_s sc (b_maxx a) (b_maxx b) && close_s sc (b_maxy a) (b_maxy b).
+Definition meas_agrees (sc : Q) (m : option shape_meas) (o : shape_meas) : bool :=
+  match m, o with
+  | Some (SMBox b r), SMBox b' r' => close_box sc b b' && close_pt sc r r'
+  | Some (SMCirc r c), SMCirc r' c' => close_s sc r r' && close_pt sc c c'
+  | _, _ => false
+  end.
 
 Definition rcentre (r : reg) : option pt := snd r.
 
@@ -90,4 +118,8 @@ Definition check (tau : Q) (k : case) : bool :=
   | CPlace sc sh pos th c s o => agree tau sc atoms_shape (rotate_translate_local tau fuel pos th c s sh) o
   | CRectVerts sc l w ctr ori c s o => agree tau sc (map APt) (Ok (rect_vertices l w ctr ori c s)) o
   | CEnclose sc sm pm om orc o => agree tau sc atoms_shape (enclosure sm pm om orc) o
+  | CMeas sc sh co so sm => meas_agrees sc (meas_prim sh co so) sm
+  | CFromState sc sh st atab cstab o =>
+      agree tau sc atoms_shape
+            (occupancy_exact tau fuel (fun a => fst (tab1 cstab a)) (fun a => snd (tab1 cstab a)) (tab2 atab) sh st) o
   end.
